@@ -93,3 +93,39 @@ def build_update_for(nb, ckn):
 
 
 unit("update", ["C01", "C03", "C07", "C11", "C15", "C17", "C18"], rlimit=600)(build_update_for(0, 0))
+
+
+# ------------------------------------------------------------------ stream (C12)
+@unit("stream", ["C12", "C17"], rlimit=120)
+def build_stream(sc):
+    g = src(sc, "generate_easy_std.rs")
+    sig, body = extract.fn_text(g, "hash_stream_common")
+    lines = extract.dedent(body)
+    report = []
+    items = extract.apply_rules(lines, report)
+    annots = extract.parse_annot(os.path.join(VDIR, "stream.annot"))
+    header = [b for k, a, b in annots if k == "header"]
+    annots = [(k, a, b) for k, a, b in annots if k != "header"]
+    out = extract.splice(items, annots, report)
+    bs_t, bs_v = extract_const(g, "BUFFER_SIZE")
+    # signature: name the result so that the postcondition can talk about it
+    m = re.match(r"(.*)\)\s*->\s*(Result<G::Output, GeneratorOrIOError>)\s*$", " ".join(sig.split()), re.S)
+    if not m:
+        raise extract.ExtractError("lost-anchor: hash_stream_common signature shape")
+    sig2 = "%s) -> (res: %s)" % (m.group(1), m.group(2))
+    text = "use vstd::prelude::*;\nuse std::io::Read;\nverus! {\n"
+    text += read("stream_prelude.rs")
+    text += "const BUFFER_SIZE: %s = %s;   // extracted\n\n" % (bs_t, bs_v)
+    text += "#[verifier::exec_allows_no_decreases_clause]\n" + sig2 + "\n" + "\n".join(header[0]) + "\n{\n"
+    text += "\n".join("    " + l for l in out)
+    text += "\n}\n\n} // verus!\nfn main() {}\n"
+    fidelity = {"unit": "stream", "source": "fast-tlsh/src/generate_easy_std.rs hash_stream_common", "rewrites": report,
+                "dropped": ["#[inline] attribute", "doc comments"],
+                "kept": "every statement of the body, token for token apart from the listed rewrites"}
+    return {"text": text, "expect": ["hash_stream_common"], "function": "generate_easy_std::hash_stream_common",
+            "functions": {"hash_stream_common": "generate_easy_std::hash_stream_common"},
+            "domain": "all readers honouring n <= buf.len(), all reader histories (any number of partial reads, interruptions, errors; no bound), all generators",
+            "fidelity": fidelity,
+            "assumptions": ["Verus unit stream: std::io::Read implementors return n <= buf.len() (documented contract); a reader that violates it is covered by the Kani obligations stream.lying_reader.*",
+                            "vec![0u8; N] yields N bytes (vstd)", "termination is not claimed (an endless reader never returns)",
+                            "GeneratorType::{update,finalize} by the abstract contract fed' = fed ++ data / result_of(fed); instantiated for Generator<T> by the C01 contracts"]}
